@@ -108,7 +108,7 @@ impl Monitor for C19 {
 		"C19"
 	}
 	fn rule(&self) -> String {
-		"decoding: ALL 256 one-byte and ALL 65536 two-byte sequences, each placed in 16/31/10-byte fields at the start (NUL-terminated, random garbage after the NUL), in the middle after ASCII text, and flush against the end of a full field with no NUL (so a lead byte may be cut by the field end), through MeleeString::try_from; and patched into the name tag / netplay name / connect code of an occupied port of a complete v3.16 replay read with slippi::read (quick: one field x port per sequence, rotating; thorough: all three fields). Plus every 3-byte prefix over 24 boundary bytes (13,824 prefixes) followed by ASCII text; NUL at every position of every width with random valid text before and garbage after (garbage must not influence the result), and random multi-character valid/invalid strings. Reference: committed CPython cp932 table with the single bytes A0/FD/FE/FF as errors; an invalid sequence must yield Err, never U+FFFD. Normalisation: every Unicode scalar value (all 1,112,064) and random strings against the five-rule map, plus idempotence. distinct = (route, lead-byte class, outcome) classes.".into()
+		"decoding: ALL 256 one-byte and ALL 65536 two-byte sequences, each placed in 16/31/10-byte fields at the start (NUL-terminated, random garbage after the NUL), in the middle after ASCII text, and flush against the end of a full field with no NUL (so a lead byte may be cut by the field end), through MeleeString::try_from; and patched into the name tag / netplay name / connect code of an occupied port of a complete v3.16 replay read with slippi::read (quick: one field x port per sequence, rotating; thorough: all three fields). Plus random valid/invalid multi-character fields (one third made of single-byte half-width katakana, fields filled to the last byte without NUL) through try_from AND through complete files; every 3-byte prefix over 24 boundary bytes (13,824 prefixes) followed by ASCII text; NUL at every position of every width with random valid text before and garbage after (garbage must not influence the result), and random multi-character valid/invalid strings. Reference: committed CPython cp932 table with the single bytes A0/FD/FE/FF as errors; an invalid sequence must yield Err, never U+FFFD. Normalisation: every Unicode scalar value (all 1,112,064) and random strings against the five-rule map, plus idempotence. distinct = (route, lead-byte class, outcome) classes.".into()
 	}
 	fn assumptions(&self) -> Vec<String> {
 		vec!["reference table = CPython cp932 (tools/gen_cp932.py) with WHATWG's treatment of A0/FD/FE/FF; measured to agree with the pinned encoding_rs on every 1- and 2-byte sequence".into()]
@@ -234,6 +234,11 @@ impl Monitor for C19 {
 			let nul_at = rng.below(w + 1);
 			let mut f = vec![];
 			while f.len() < nul_at {
+				let kat = nul_at % 3 == 0;
+				if kat && f.len() < nul_at {
+					f.push(0xA1 + rng.below(0x3F) as u8);
+					continue;
+				}
 				let atoms: &[&[u8]] = &[b"a", b"Z", b"7", b" ", &[0x82, 0xA0], &[0x83, 0x41], &[0x81, 0x40], &[0xB1], &[0x81, 0x66], &[0x81, 0x68], &[0x82, 0x60], &[0x88, 0x9F], &[0xDF], &[0x81], &[0xFD], &[0x82, 0x20], &[0xEB, 0x40], &[0x85, 0x9E]];
 				let a = *rng.pick(atoms);
 				if f.len() + a.len() > nul_at {
@@ -253,6 +258,9 @@ impl Monitor for C19 {
 				f2.push(rng.byte());
 			}
 			self.check_field(&mut out, &f1, name);
+			// the same field through a complete replay (the file path may decode differently)
+			let wi = WIDTHS.iter().position(|x| x.0 == w).unwrap_or(0);
+			self.check_in_file(&mut out, wi, rng.below(4), &f1);
 			let (r1, r2) = (try_from(&f1), try_from(&f2));
 			if r1 != r2 {
 				out.violate("bytes-after-nul-matter", format!("{}: {:02x?} vs {:02x?} (same bytes before the NUL at {}) decode to {:?} vs {:?}", name, f1, f2, nul_at, r1, r2), None);
